@@ -409,6 +409,7 @@ type variant17 struct {
 func variants17() []variant17 {
 	D := "definitions"
 	return []variant17{
+		{name: "shipped-copy", what: "the shipped schema files, copied unchanged", edit: func(root, defs map[string]interface{}) bool { return true }},
 		{name: "tight-uint32", what: "uint32.maximum tightened to 65535, int64.minimum raised to 0", edit: func(root, defs map[string]interface{}) bool {
 			u, i := jobj(defs, D, "uint32"), jobj(defs, D, "int64")
 			if u == nil || i == nil {
@@ -526,6 +527,15 @@ func buildVariants(scratch string) (cfgs []*cfg17, preamble string, notes []stri
 			return nil, "", nil, err
 		}
 		rootPath := filepath.Join(dir, "schema.json")
+		// whatever stood at this path before, and was loaded from it, is history: a schema that accepts everything is
+		// written and loaded first (under both spellings of the source used below), then replaced by the variant
+		if os.WriteFile(rootPath, []byte("{}"), 0o644) == nil {
+			_, _ = hx.Guard(func() {
+				_, _ = schema.Load("file://" + rootPath)
+				_, _ = schema.Load(" " + rootPath + " ")
+				_, _ = schema.Load(rootPath)
+			})
+		}
 		if v.text != "" {
 			if err := os.WriteFile(rootPath, []byte(v.text), 0o644); err != nil {
 				return nil, "", nil, err
